@@ -194,6 +194,7 @@ func parseWScript(s string) *scriptWriter {
 // ---------- packets ----------
 
 func newPacket(k int) mq.Packet {
+	keptLists, keptFilterVars = nil, nil // what the caller kept belongs to the history of one packet
 	switch k {
 	case 0:
 		return &mq.Undefined{}
@@ -319,6 +320,10 @@ func applyCall(p mq.Packet, tok string) {
 	}
 	switch name {
 	case "SetWill":
+		if arg == "nil" {
+			p.(*mq.Connect).SetWill(nil)
+			return
+		}
 		inner := arg[1 : len(arg)-1]
 		w := mq.NewPublish()
 		if inner != "" {
@@ -331,7 +336,12 @@ func applyCall(p mq.Packet, tok string) {
 	case "AddFilter":
 		parts := strings.Split(arg, ":")
 		o, _ := strconv.Atoi(parts[1])
-		p.(*mq.Subscribe).AddFilters(mq.NewTopicFilter(string(unhex(parts[0])), mq.Opt(o)))
+		tf := new(mq.TopicFilter) // the caller's own variable, kept and reused later (~Reuse)
+		*tf = mq.NewTopicFilter(string(unhex(parts[0])), mq.Opt(o))
+		p.(*mq.Subscribe).AddFilters(*tf)
+		if len(keptFilterVars) < 64 {
+			keptFilterVars = append(keptFilterVars, tf)
+		}
 		return
 	case "AddUnsubFilter":
 		p.(*mq.Unsubscribe).AddFilter(string(unhex(arg)))
@@ -387,6 +397,7 @@ func applyCall(p mq.Packet, tok string) {
 //   ~Spread:<hex:o,hex:o,...>                Subscribe.AddFilters(list...) with a caller-owned slice
 //   ~Reuse                                   the caller overwrites and appends to the slices it passed before
 var keptLists [][]mq.TopicFilter
+var keptFilterVars []*mq.TopicFilter
 
 func applyPseudo(p mq.Packet, name, arg string) {
 	switch name {
@@ -425,8 +436,48 @@ func applyPseudo(p mq.Packet, name, arg string) {
 		list = append(make([]mq.TopicFilter, 0, len(list)+3), list...)
 		sub.AddFilters(list...)
 		keptLists = append(keptLists, list)
+	case "~UserProps":
+		// several pairs in ONE variadic call
+		var kv []string
+		for _, it := range strings.Split(arg, ",") {
+			parts := strings.Split(it, ":")
+			kv = append(kv, string(unhex(parts[0])), string(unhex(parts[1])))
+		}
+		m := reflect.ValueOf(p).MethodByName("AddUserProp")
+		if !m.IsValid() {
+			panic("not applicable: ~UserProps")
+		}
+		var in []reflect.Value
+		for _, x := range kv {
+			in = append(in, reflect.ValueOf(x))
+		}
+		m.Call(in)
+		for i := range kv { // the caller's slice is its own
+			kv[i] = "overwritten"
+		}
+	case "~Feed":
+		// p.SetB(p.A()): the very slice an accessor returned is handed to another setter
+		parts := strings.Split(arg, ">")
+		g := reflect.ValueOf(p).MethodByName(parts[0])
+		st := reflect.ValueOf(p).MethodByName("Set" + parts[1])
+		if !g.IsValid() || !st.IsValid() {
+			return
+		}
+		out := g.Call(nil)
+		if len(out) == 1 && out[0].Type().ConvertibleTo(st.Type().In(0)) {
+			st.Call([]reflect.Value{out[0].Convert(st.Type().In(0))})
+		}
 	case "~Reuse":
-		// the caller goes on using the slices it passed to AddFilters
+		// the caller goes on using its own TopicFilter variables ...
+		for i, tf := range keptFilterVars {
+			n := len(tf.Filter())
+			if n > 0 {
+				tf.SetFilter(strings.Repeat("Z", n-i%2))
+			}
+			tf.SetOptions(mq.Opt(3))
+		}
+		keptFilterVars = nil
+		// ... and the slices it passed to AddFilters
 		for _, list := range keptLists {
 			for i := range list {
 				list[i] = mq.NewTopicFilter("overwritten-by-caller", 0)
